@@ -48,7 +48,7 @@ CHECKS = {
                 "Props/C16Add.lean): the invariant holds whatever runs in between, the pending identifier is refused, the second half "
                 "touches no other object, and the two halves with nothing in between are the one-step Add; "
                 "tied to service.go by regenerated lock/map operation sequences and exact differential runs against a "
-                "real server, with objects whose activation waits for the harness; Receive against Remove with the grain of the code (senders run the program compiled from the regenerated tokens of Receive, bounded mailbox, Go RWMutex with its waiting writer): no deadlock on any schedule, a message after the removal is refused; the order RUnlock-after-send is refuted",
+                "real server, with objects whose activation waits for the harness; the objects that live on the client's side of a service (bus/service_reference.go) are driven by the same operations (identifiers, a second removal, removals at the same moment: the defect c6afcd6 was found and repaired there); Receive against Remove with the grain of the code (senders run the program compiled from the regenerated tokens of Receive, bounded mailbox, Go RWMutex with its waiting writer): no deadlock on any schedule, a message after the removal is refused; the order RUnlock-after-send is refuted",
         "note": "trusts the Lean kernel, the flow extractor, the harness' instrumented PingPong objects; sequential histories, "
                 "concurrent removals and removals of busy objects in the correspondence run",
         "technique": "Lean 4 proof (invariant by induction over operation histories) + regenerated tie lemmas + differential correspondence",
